@@ -70,6 +70,18 @@ Theorem C06_dict_fromkeys_den : forall l ver x, den (dfromkeys l) ver x <-> den 
 Proof. exact den_dfromkeys. Qed.
 Print Assumptions C06_dict_fromkeys_den.
 
+Theorem C06_dict_update_in : forall l d x, Forall wfh d -> Forall wfh l -> (In x (dupdate d l) <-> In x d \/ In x l).
+Proof. exact in_dupdate_wfh. Qed.
+Print Assumptions C06_dict_update_in.
+
+Theorem C06_dict_update_nodup : forall l d, Forall wfh d -> Forall wfh l -> NoDup d -> NoDup (dupdate d l).
+Proof. exact NoDup_dupdate. Qed.
+Print Assumptions C06_dict_update_nodup.
+
+Theorem C06_dict_fromkeys_mem : forall l x, dmem x (dfromkeys l) = dmem x l.
+Proof. exact dmem_dfromkeys. Qed.
+Print Assumptions C06_dict_fromkeys_mem.
+
 (* dict == dict on duplicate-free host-bit-free key lists: same keys in any order *)
 Theorem C06_dict_eq : forall a b, Forall wfh a -> Forall wfh b -> NoDup a -> NoDup b ->
   (dict_eqb a b = true <-> Permutation a b).
@@ -126,6 +138,12 @@ Theorem C06_shown_unique : forall d l, SetInv d -> canon_nets l ->
   (forall ver x, den l ver x <-> den d ver x) -> sorted d = l.
 Proof. exact C06_inv.C06_shown_unique. Qed.
 Print Assumptions C06_shown_unique.
+
+(* minimal: no list of well-formed networks (host bits or not, in any order) with the same addresses is shorter *)
+Theorem C06_shown_minimal : forall d l', SetInv d -> Forall wf_net l' ->
+  (forall ver x, den l' ver x <-> den d ver x) -> (length (sorted d) <= length l')%nat.
+Proof. exact C06_inv.C06_shown_minimal. Qed.
+Print Assumptions C06_shown_minimal.
 
 (* ---------------------------------------------------------------- 5. == is extensional *)
 Theorem C06_extensional : forall a b, SetInv a -> SetInv b ->
@@ -198,6 +216,11 @@ Print Assumptions C06_pickle.
 Theorem C06_step_enc : forall rs o, fst (step rs (enc_op o)) = ostep rs o.
 Proof. exact step_enc. Qed.
 Print Assumptions C06_step_enc.
+
+Theorem C06_steps_enc : forall ops rs,
+  fold_left (fun rs o => fst (step rs o)) (map enc_op ops) rs = fold_left ostep ops rs.
+Proof. exact steps_enc. Qed.
+Print Assumptions C06_steps_enc.
 
 Theorem C06_step : iprange_to_cidrs_spec -> cidr_merge_spec -> add_spec -> remove_spec ->
   inter_spec -> diff_spec -> xor_spec ->
